@@ -803,11 +803,15 @@ def generate():
     out.append('')
     lc = loop_consts()
     sel, sdr = lc['sel'], lc['sdr']
-    out.append('/-- get_sel_entry: ENTIRE_RECORD, fall-back length, record length, decrement, shrink code -/')
-    out.append('def selCfg : SelCfg := ⟨%d, %d, %d, %d, %d⟩' % (
-        sel['entire'], sel['full'], sel['recLen'], sel['step'], sel['ccShrink']))
-    out.append('/-- get_and_clear_sel_entry: the code that restarts; sel_entries: START / END record id -/')
+    out.append('/-- get_sel_entry: ENTIRE_RECORD, fall-back length, record length, decrement, shrink code, floor of '
+               'max_req_len (none: lowered without end) -/')
+    out.append('def selCfg : SelCfg := ⟨%d, %d, %d, %d, %d, %s⟩' % (
+        sel['entire'], sel['full'], sel['recLen'], sel['step'], sel['ccShrink'],
+        'none' if sel.get('floor') is None or sel['floor'] < 0 else 'some %d' % sel['floor']))
+    out.append('/-- get_and_clear_sel_entry: the code that restarts; default of its retry budget (none: `while True`); '
+               'sel_entries: START / END record id -/')
     out.append('def sel_cancel : Nat := %d' % sel['ccCancel'])
+    out.append('def sel_budget : Option Nat := %s' % ('none' if sel.get('budget') is None else 'some %d' % sel['budget']))
     out.append('def sel_first : Nat := %d' % sel['first'])
     out.append('def sel_last : Nat := %d' % sel['last'])
     out.append('/-- get_sdr_data_helper: header length, max_req_len, its decrement, retry, shrink code -/')
